@@ -96,4 +96,22 @@ impl Rng {
         }
         w.len() - 1
     }
+
+    /// a repetition count next to a power of two (where 8- and 16-bit counters wrap); `big` allows 65 536
+    pub fn near_pow2(&mut self, big: bool) -> u64 {
+        let base: u64 = match self.below(if big { 12 } else { 10 }) {
+            0 => 128,
+            1..=5 => 256,
+            6 | 7 => 512,
+            8 => 1024,
+            9 => 300,
+            _ => 65536,
+        };
+        match self.below(5) {
+            0 => base - 1,
+            1 | 2 => base,
+            3 => base + 1,
+            _ => base + self.below(8),
+        }
+    }
 }
